@@ -33,16 +33,24 @@ Definition foreign_exc_remainder : list (string * string) := [
   ("kmip/services/server/crypto/engine.py", "CryptographyEngine._encrypt_symmetric");  (* InvalidField: mode construction refused *)
   ("kmip/services/server/crypto/engine.py", "CryptographyEngine._encrypt_symmetric");  (* logger.exception: cipher operation *)
   ("kmip/services/server/crypto/engine.py", "CryptographyEngine._encrypt_symmetric");  (* CryptographicFailure: encryption failed *)
+  (* 2eb33d4: the RSA operations got the same shape (backend texts "Encryption failed", "Decryption failed",
+     "Ciphertext length must be equal to key size."; observed under canary keys / plaintext / ciphertext) *)
+  ("kmip/services/server/crypto/engine.py", "CryptographyEngine._encrypt_asymmetric"); (* logger.exception: public_key.encrypt *)
+  ("kmip/services/server/crypto/engine.py", "CryptographyEngine._encrypt_asymmetric"); (* CryptographicFailure: encryption failed *)
   ("kmip/services/server/crypto/engine.py", "CryptographyEngine._handle_symmetric_padding"); (* padding applied/removed *)
   ("kmip/services/server/crypto/engine.py", "CryptographyEngine._decrypt_symmetric");  (* logger.exception: invalid key bytes *)
   ("kmip/services/server/crypto/engine.py", "CryptographyEngine._decrypt_symmetric");  (* InvalidField: mode construction refused *)
   ("kmip/services/server/crypto/engine.py", "CryptographyEngine._decrypt_symmetric");  (* logger.exception: cipher operation *)
   ("kmip/services/server/crypto/engine.py", "CryptographyEngine._decrypt_symmetric");  (* CryptographicFailure: decryption failed *)
+  ("kmip/services/server/crypto/engine.py", "CryptographyEngine._decrypt_asymmetric"); (* logger.exception: private_key.decrypt *)
+  ("kmip/services/server/crypto/engine.py", "CryptographyEngine._decrypt_asymmetric"); (* CryptographicFailure: decryption failed *)
   ("kmip/services/server/crypto/engine.py", "CryptographyEngine._create_rsa_key_pair");
   ("kmip/services/server/crypto/engine.py", "CryptographyEngine.derive_key");          (* HKDF refused its parameters *)
   ("kmip/services/server/crypto/engine.py", "CryptographyEngine.derive_key");          (* PBKDF2 refused its parameters *)
   ("kmip/services/server/crypto/engine.py", "CryptographyEngine.derive_key");          (* KBKDF refused its parameters *)
   ("kmip/services/server/crypto/engine.py", "CryptographyEngine.wrap_key");   (* CryptographicFailure(str(e)): reaches the CLIENT *)
+  ("kmip/services/server/crypto/engine.py", "CryptographyEngine.sign");        (* logger.exception: key.sign *)
+  ("kmip/services/server/crypto/engine.py", "CryptographyEngine.sign");        (* CryptographicFailure: signing failed *)
   ("kmip/services/server/engine.py", "KmipEngine._process_batch");            (* every unexpected exception of an operation *)
   ("kmip/services/server/engine.py", "KmipEngine._process_delete_attribute"); (* except ValueError *)
   ("kmip/services/server/engine.py", "KmipEngine._process_register");
